@@ -67,10 +67,16 @@ pub fn workload_partial(tier: Tier, sync_always: bool, w: OpWeights, min_ops: us
 
 pub fn workload(tier: Tier, sync_always: bool, w: OpWeights, min_ops: usize, max_quick: usize, max_thorough: usize) -> BoxedStrategy<Hist> {
     let maxops = tier.pick(max_quick, max_thorough);
+    // one workload in eight uses only values of 9-40 KB (several write calls per append, merges
+    // that fill buffers larger than the 8 KiB default)
+    let ops = prop_oneof![
+        7 => proptest::collection::vec(op_strategy(w, ValSizes::Mixed), min_ops..=maxops),
+        1 => proptest::collection::vec(op_strategy(w, ValSizes::Big), min_ops..=maxops),
+    ];
     (
         workload_cfg(sync_always),
         proptest::collection::vec(key_strategy(false), 2..=5),
-        proptest::collection::vec(op_strategy(w, ValSizes::Mixed), min_ops..=maxops),
+        ops,
     )
         .prop_map(|(cfg, keys, ops)| Hist { cfg, keys, ops })
         .boxed()
